@@ -30,6 +30,8 @@ def gen_cons(rng, with_times=True):
         cs.append(("r", rng.choice([3, 5, -7, 1 << 40])))
     if rng.random() < 0.04:
         cs.append(("p", 4, 1))          # a name the mock function does not have
+    if rng.random() < 0.3:
+        cs.append(("o", rng.choice([11, 22, 33])))     # will_set_contents_of_output_parameter(out, &v, sizeof v)
     rng.shuffle(cs)
     return cs
 
@@ -99,7 +101,7 @@ def to_sexp(ops, nested=None):
     for k, o in enumerate(ops):
         if o[0] in "EAN":
             line += 1
-            cs = " ".join("(p %d %d)" % (c[1], c[2]) if c[0] == "p" else "(%s %d)" % (c[0], c[1]) for c in o[2] if c[0] != "s")
+            cs = " ".join("(p %d %d)" % (c[1], c[2]) if c[0] == "p" else "(%s %d)" % (c[0], c[1]) for c in o[2] if c[0] not in "so")
             out.append("(%s %d %d %s)" % (o[0], o[1], line, cs))
         elif o[0] == "C":
             out.append("(C %d %s)" % (o[1], " ".join("(%d %d)" % a for a in o[2])))
@@ -129,16 +131,27 @@ def run_vm(drv, cases, timeout=300):
     p = subprocess.run([drv], input="\n".join(to_vm(c) for c in cases) + "\n", stdout=subprocess.PIPE,
                        stderr=subprocess.DEVNULL, text=True, timeout=timeout)
     lines = p.stdout.split("\n")[:-1]
+    CELLS.clear()
+    for i, l in enumerate(lines):
+        main, _, cells = l.partition("|")
+        lines[i] = main
+        CELLS.append([int(x) for x in cells.split(",") if x])
     if p.returncode != 0 or len(lines) != len(cases):
         # find the case that killed it
         return lines, p.returncode
     return lines, 0
 
 
+CELLS = []      # per case of the last run_vm: the out cell after each op
+
+
 # ---------------------------------------------------------------------------------------
 # per-function specification, as an independent oracle on the implementation's outputs
 # (the executable reading of Spec_Mocks.v: every function has its own FIFO)
 # ---------------------------------------------------------------------------------------
+OUT_CELLS = []     # filled by spec_run: expected out cell per op (None = not judged)
+
+
 def spec_run(ops, unlimited, nested_out=None):
     """Expected (results multiset per op, return value) from per-function FIFOs.
     pending entry: dict(line, kind 'times'/'always'/'never', left, cons, called, trig)"""
@@ -147,6 +160,7 @@ def spec_run(ops, unlimited, nested_out=None):
     succ = set()
     out = []
     line = 0
+    outs = []
     def call(f, args, res, nest):
         """one call of f served by f's own FIFO; returns its return value; nested calls appended"""
         nonlocal mode
@@ -163,6 +177,7 @@ def spec_run(ops, unlimited, nested_out=None):
             return ret
         succ.add(f)
         ret = next((c[1] for c in e["cons"] if c[0] == "r"), 0)
+        outs.append([c[1] for c in e["cons"] if c[0] == "o"])
         names = [a[0] for a in args]
         unknown = next((c for c in e["cons"] if c[0] == "p" and c[1] not in names), None)
         if unknown is not None:
@@ -186,6 +201,7 @@ def spec_run(ops, unlimited, nested_out=None):
     for k_op, o in enumerate(ops):
         res, ret = [], 0
         nest = []
+        outs = []
         if o[0] in "EAN":
             line += 1
             f = o[1]
@@ -230,6 +246,11 @@ def spec_run(ops, unlimited, nested_out=None):
             pend, succ = {}, set()
         elif o[0] == "X":
             pend, succ = {}, set()
+        # the out cell after a call: what the serving expectation's content setter says (the last one when a
+        # nested call wrote too); judged only when every check of this operation passed
+        flat = [v for l_ in outs for v in l_]
+        exp_cell = (flat[-1] if flat else -1) if o[0] == "C" and all(r[1] == 1 for r in res) and len(outs) <= 1 else None
+        OUT_CELLS.append(exp_cell)
         out.append((sorted(res), ret))
         if nested_out is not None:
             nested_out.append(nest)
@@ -340,7 +361,7 @@ def run_all(chk, drv, cases, which):
         spec_run(c, unlimited, n)
         nests.append(n)
     model = [merge_nested(ml, n) for ml, n in zip(vlib.run_model("mocks", [to_sexp(c, n) for c, n in zip(cases, nests)]), nests)]
-    for ops, il, ml in zip(cases, lines, model):
+    for idx, (ops, il, ml) in enumerate(zip(cases, lines, model)):
         chk.case(to_vm(ops), nontrivial=len(ops) > 2)
         chk.count("len:%s" % ("1-3" if len(ops) <= 3 else "4-10" if len(ops) <= 10 else "11-50" if len(ops) <= 50 else ">50"))
         for o in ops:
@@ -355,8 +376,16 @@ def run_all(chk, drv, cases, which):
         chk.sample({"ops": to_vm(ops)[:300], "implementation": il[:300]}, limit=4)
         # specification on the implementation's output
         got = parse_out(il)
+        OUT_CELLS.clear()
         exp = spec_run(ops, unlimited)
         cs = classify(ops)
+        cells = CELLS[idx] if idx < len(CELLS) else []
+        if which == "C06":
+            for k, (want, have) in enumerate(zip(list(OUT_CELLS), cells)):
+                if want is not None and want != have:
+                    chk.violation(sorted(cs)[0] if cs else "side-effect", "call %d (%s) leaves %d in its output parameter; the earliest pending expectation of f%d sets %s" % (
+                        k, to_vm(ops).split(";")[k], have, ops[k][1], want if want != -1 else "nothing"),
+                        {"ops": to_vm(ops), "op_index": k, "implementation": il, "cells": cells, "how": "echo '<ops>' | _work/bin-hooks/mockvm"})
         for k, ((results, ret, queue), (eres, eret)) in enumerate(zip(got, exp)):
             o = ops[k]
             rp = {"ops": to_vm(ops), "op_index": k, "op": to_vm([o]) if o[0] not in "EAN" else str(o),
